@@ -145,6 +145,12 @@ def run(ctx):
             if why:
                 ctx.problem('oracle', 'property fails on the implementation: ' + why, inputs=js, failing_input_found=True)
                 break
+    from harness.props import lattice
+    why, nsolves = lattice.lattice_c03(ctx)
+    ctx.evaluations += nsolves
+    ctx.suites['option_level_lattice'] = {'solves': nsolves, 'failure': why}
+    if why:
+        ctx.problem('oracle', 'property fails on the implementation: ' + why, inputs={'suite': 'option_level_lattice'}, failing_input_found=True)
     why = oracle_unbounded()
     ctx.suites['unbounded_badly_scaled'] = {'cases': 2, 'failure': why}
     ctx.evaluations += 2
